@@ -88,7 +88,7 @@ class MiniExec:
                     self.block(st.body, env)
             elif isinstance(st, ast.Return):
                 raise _Return(self.value(st.value, env) if st.value is not None else None)
-            elif isinstance(st, ast.Pass):
+            elif isinstance(st, (ast.Pass, ast.Assert)):
                 continue
             else:
                 raise AnalysisError(f"{self.where}: statement `{short(st, 60)}` not understood")
